@@ -522,11 +522,16 @@ func (a *AggregationProcess) aggregateRecords(incomingRecord, existingRecord ent
 			}
 			// Update the flowEndSecondsFromSource/DestinationNode fields, and compute
 			// the time difference between the incoming record and the last record.
+			var err error
 			if fillSrcStats {
-				prevFlowEndSeconds = a.updateFlowEndSecondsFromNodes(incomingRecord, existingRecord, true, incomingVal)
+				if prevFlowEndSeconds, err = a.updateFlowEndSecondsFromNodes(incomingRecord, existingRecord, true, incomingVal); err != nil {
+					return err
+				}
 			}
 			if fillDstStats {
-				prevFlowEndSeconds = a.updateFlowEndSecondsFromNodes(incomingRecord, existingRecord, false, incomingVal)
+				if prevFlowEndSeconds, err = a.updateFlowEndSecondsFromNodes(incomingRecord, existingRecord, false, incomingVal); err != nil {
+					return err
+				}
 			}
 			// Skip the aggregation process if the incoming record is not the latest
 			// from its coming node; for intra-node flows. Also to avoid to assign
@@ -845,7 +850,7 @@ func (a *AggregationProcess) addFieldsForThroughputCalculation(record entities.R
 
 // updateFlowEndSecondsFromNodes updates the value of flowEndSecondsFromSourceNode
 // or flowEndSecondsFromDestinationNode, returning the previous value before update.
-func (a *AggregationProcess) updateFlowEndSecondsFromNodes(incomingRecord, existingRecord entities.Record, isSrc bool, incomingVal uint32) uint32 {
+func (a *AggregationProcess) updateFlowEndSecondsFromNodes(incomingRecord, existingRecord entities.Record, isSrc bool, incomingVal uint32) (uint32, error) {
 	ieName := "flowEndSecondsFromSourceNode"
 	if !isSrc {
 		ieName = "flowEndSecondsFromDestinationNode"
@@ -855,11 +860,14 @@ func (a *AggregationProcess) updateFlowEndSecondsFromNodes(incomingRecord, exist
 	// When the incoming record is the first record from its node, the existingVal of the field
 	// is zero, we set it by flowStartSeconds. time_diff = flowEndSeconds - flowStartSeconds
 	if existingVal == 0 {
-		incomingIe, _, _ := incomingRecord.GetInfoElementWithValue("flowStartSeconds")
+		incomingIe, _, exist := incomingRecord.GetInfoElementWithValue("flowStartSeconds")
+		if !exist {
+			return 0, fmt.Errorf("element with name flowStartSeconds not present in the incoming record")
+		}
 		existingVal = incomingIe.GetUnsigned32Value()
 	}
 	existingIe.SetUnsigned32Value(incomingVal)
-	return existingVal
+	return existingVal, nil
 }
 
 // TODO: We can consider to add similar methods into record interface.
